@@ -1,18 +1,22 @@
 #!/bin/bash
 # ./seeded_eval.sh <seeded-dir-name> [tier] [check ...]
-# Applies /verif/seeded/<name>/patch.diff to /repo, runs the given checks (default: the property named in meta.json),
-# prints their verdict lines and ALWAYS restores /repo afterwards.
+# Evaluates a seeded change WITHOUT touching /repo: makes a scratch git worktree of /repo's HEAD under /tmp, applies
+# /verif/seeded/<name>/patch.diff there, points the checks at it (VERIF_REPO/VERIF_BUILD/VERIF_EVIDENCE_DIR/
+# VERIF_REPLAY_DIR), prints their verdict lines and removes the worktree with its build output.
+# Several evaluations may run in parallel, also next to checks of the unchanged tree.
 set -u
 cd "$(dirname "$0")"
 NAME="$1"; TIER="${2:-quick}"; shift; shift || true
-DIR="seeded/$NAME"
+DIR="$PWD/seeded/$NAME"
 [ -f "$DIR/patch.diff" ] || { echo "no $DIR/patch.diff"; exit 2; }
-if [ -n "$(git -C /repo status --porcelain --untracked-files=no)" ]; then echo "/repo has uncommitted changes to tracked files"; exit 2; fi
 CHECKS="$*"
-export VERIF_EVIDENCE_DIR="$PWD/.build/evidence_seeded"   # never overwrite the evidence of the unchanged tree
 if [ -z "$CHECKS" ]; then CHECKS=$(python3 -c "import json;print(json.load(open('$DIR/meta.json'))['property'])"); fi
-git -C /repo apply "$PWD/$DIR/patch.diff" || { echo "patch does not apply"; exit 2; }
-trap 'git -C /repo checkout -- . ; ./build.sh all >/dev/null 2>&1' EXIT
+WT=$(mktemp -d /tmp/seedwt.XXXXXX)
+cleanup() { git -C /repo worktree remove --force "$WT/repo" >/dev/null 2>&1; rm -rf "$WT"; git -C /repo worktree prune; }
+trap cleanup EXIT
+git -C /repo worktree add --detach -q "$WT/repo" HEAD || { echo "cannot create worktree"; exit 2; }
+git -C "$WT/repo" apply "$DIR/patch.diff" || { echo "patch does not apply"; exit 2; }
+export VERIF_REPO="$WT/repo" VERIF_BUILD="$WT/build" VERIF_EVIDENCE_DIR="$WT/evidence" VERIF_REPLAY_DIR="$WT/replays"
 for c in $CHECKS; do
   out=$(./check.sh $c $TIER 2>&1); rc=$?
   echo "== $NAME: check $c $TIER exit=$rc"
